@@ -85,6 +85,25 @@ theorem unmarshal_ok (d : DVal) (t : Bytes) :
         · simp [hl, digestRepr]
         · simp [hl]
 
+theorem unmarshal_reject (d : DVal) (t : Bytes) (h : (unmarshal d t).2 = false) : (unmarshal d t).1 = d := by
+  unfold unmarshal at h ⊢
+  cases hc : cut 58 t with
+  | none => rfl
+  | some ab =>
+    obtain ⟨a, hx⟩ := ab
+    simp only [hc] at h ⊢
+    cases hb : hexDecode hx with
+    | none => rfl
+    | some b =>
+      simp only [hb] at h ⊢
+      cases hs : digestSize a with
+      | none => rfl
+      | some sz =>
+        simp only [hs] at h ⊢
+        by_cases hl : b.length = sz
+        · simp [hl] at h
+        · simp [hl]
+
 theorem algo_no_colon {a : Bytes} {n : Nat} (h : digestSize a = some n) : 58 ∉ a := by
   unfold digestSize at h
   split at h
